@@ -271,6 +271,7 @@ Property make() {
   p.rule = "plan = metadynamics on 1-2 scalar variables (periodic included) x grid covering 50-150% of the sampled range (excursions, hills deposited outside) x hillWidth or "
            "gaussianSigmas x newHillFrequency 1-6 x gridsUpdateFrequency equal or larger x well-tempered x keepHills x expandBoundaries x rebinGrids x useGrids off, over 10-80 "
            "steps in 1-3 segments with optional stop/resume; non-trivial = at least one hill deposited; distinct = hash of (template, segmentation, whether the trajectory left the grid)";
+  p.rule += " Later additions: with keepHills and rebinGrids 70% of the resumes move the grid boundaries by a non-integer number of bins.";
   p.assumptions = {"the model takes the values Colvars reports and the current grid geometry (boundaries, widths, sizes) as inputs",
                    "tolerance = number of hills x hillWeight x 1.1e-5 (the documented truncation of a hill below exp(-11.5)) plus round-off",
                    "non-scalar variables (vectors, quaternions) are not covered"};
